@@ -37,8 +37,10 @@ type wireMsg struct {
 	Raw     []byte
 }
 
-func be32(b []byte) uint32 { return uint32(b[0])<<24 | uint32(b[1])<<16 | uint32(b[2])<<8 | uint32(b[3]) }
-func be24(b []byte) int    { return int(b[0])<<16 | int(b[1])<<8 | int(b[2]) }
+func be32(b []byte) uint32 {
+	return uint32(b[0])<<24 | uint32(b[1])<<16 | uint32(b[2])<<8 | uint32(b[3])
+}
+func be24(b []byte) int { return int(b[0])<<16 | int(b[1])<<8 | int(b[2]) }
 
 func splitAVPs(b []byte) ([]wireAVP, error) {
 	var out []wireAVP
@@ -224,16 +226,16 @@ type smServer struct {
 }
 
 type firedRec struct {
-	Key   string
-	Meta  bool
-	OH    string
-	OR    string
-	Apps  []uint32
-	Cmd   uint32
-	App   uint32
-	Req   bool
-	HbH   uint32
-	Seq   int64
+	Key  string
+	Meta bool
+	OH   string
+	OR   string
+	Apps []uint32
+	Cmd  uint32
+	App  uint32
+	Req  bool
+	HbH  uint32
+	Seq  int64
 }
 
 var srvSettings = &sm.Settings{
